@@ -394,6 +394,9 @@ class C10(Check):
 
     @staticmethod
     def _rigid_marker_velocity(b, it, dim):
+        if b["kind"] == "rod_nodal":
+            # markers are the rod nodes: their velocity is the rod's current nodal velocity
+            return np.asarray(b["state"]["v"][:dim], dtype=np.float64).copy()
         if b["kind"] not in ("cylinder", "sphere", "plane"):
             return None
         st = b["state"]
